@@ -166,6 +166,17 @@ func evalCrashState(k int, seq int, rng *Rng, cfg Config, snap *fsSnapshot, info
 	// is the state inside the window "object file rewritten by an update,
 	// index not yet committed"? (decided by the independent decoder)
 	if stale := d.staleEntries(files); len(stale) > 0 {
+		// synchronous mode: every completed call has committed its index, so only objects of the
+		// interrupted call can be in that window. A stale tuple of any other object means a call
+		// that was acknowledged earlier never committed its index: another violation than the
+		// listed finding, whatever the reopened handle does with it
+		if cfg.Async == 0 {
+			for _, u := range stale {
+				if !info.touched[u] {
+					return mk("acknowledged-index-update-lost", fmt.Sprintf("object %s was not touched by the interrupted call, its file holds the acknowledged value, but schema.json still indexes it under an older value: the call that updated it returned without committing the index", short(u))), "violation"
+				}
+			}
+		}
 		api = "update-window"
 	}
 	// fresh handle
